@@ -47,6 +47,14 @@ CHECKS = {
         "note": "conjoin/disjoin assumed contract; remove_orphaned_variables, join_nested_quantifiers, classic.rs, Compose::compose not verified; D11/D12 normalisations applied by the extractor.",
         "technique": "contract-based deductive verification (Verus) of mechanically extracted real code",
     },
+    "C17": {
+        "text": "Unbounded deductive proof (Verus) on the real code: the postcondition of the extracted Formula::substitute is the substitution lemma itself (truth value in every HT and classical interpretation "
+                "under every assignment; free-variable equation), for all formulas, variables and sort-compatible terms, including all binder-renaming cases; term/atom level functions are proved equal to spec mirrors "
+                "whose lemmas feed the formula-level proof. Attempting this proof exposed two genuine capture defects in the fresh-name search (see known_findings.json), repaired by a fix: commit.",
+        "design_ref": "DESIGN.md §5 C17, §8",
+        "note": "Assumed: the D13 stub for the infinite-iterator fresh-name search (contract = the conjuncts of the real predicate), slice::contains, prelude axioms (String/Vec extensionality, Box::from), indexmap shim, sem.rs.",
+        "technique": "contract-based deductive verification (Verus) of mechanically extracted real code",
+    },
     "C18": {
         "text": "Verus proves partial correctness of the real apply_fixpoint: the result is a fixpoint of one more pass (idempotence) and keeps the meaning of the input for meaning-preserving operations. "
                 "Termination and cross-process determinism are not decided.",
